@@ -8,6 +8,62 @@ import json, os
 ROOT = os.path.dirname(os.path.dirname(os.path.abspath(__file__)))
 
 CHECKS = {
+    "C16": dict(
+        level="exploration",
+        technique="TLA+ machine cons/Transforms.tla (state = vector; Apply/Reapply; theorems for idempotence, selectivity, target "
+                  "membership, conforming-unchanged, per-step footprint) evaluated by TLC over every vector of a bounded class x "
+                  "a decorator catalogue; TLC emits the expected result or post-condition of every (vector, decorator) pair and "
+                  "every short script, which the harness replays on the real decorators",
+        text="Covers impose_bounds (tuple/list/dict forms, all clip/nearest modes), discrete, integers, rounded/precision "
+             "(digits None/0/1/-1), impose_unique, monotonic/sorting, impose_at, impose_as, with_mean/with_variance/"
+             "with_spread/normalized, masked/partial/synchronized/clipped/suppressed against the spec for every vector of "
+             "half-integers of length 0-3 (quick: 259 vectors x 370 decorators) or 0-4 (thorough: 2801 x ~640), as list and "
+             "ndarray; index selections None/single/negative/tuples/partially and fully out of range; interval sets one/gap/"
+             "tie/touching/open-sided/unsorted/degenerate.  Per case: exact values incl. tie rules, unselected entries "
+             "bit-identical, f(f(x)) == f(x), input not mutated; every 2-step (quick) / 3-step (thorough) script over 13 "
+             "decorators replayed step by step and as one stack.  Exhaustive on the bounded class.",
+        note="trusted: TLC's evaluation of Transforms.tla, the JSON emission, the harness' mapping from catalogue record to "
+             "decorator call; randomising modes are checked against post-conditions with seeded RNGs; moment decorators exact "
+             "when divisors are powers of two, else 1e-12 (irrational scales: mean/variance to 1e-9); premises (operator "
+             "Defined): no out-of-range/aliasing multi-index for sorting/monotonic, star-shaped impose_as/synchronized masks, "
+             "non-degenerate spread/variance/sum",
+        design_ref="DESIGN.md section 4/C16"),
+    "C19": dict(
+        level="model_checking",
+        technique="TLC model-checks math/Measures.tla (state machine over product measures and scenarios: load, append, update, "
+                  "weight/position assignment, center_mass/range/var setters) against its invariants and action properties; "
+                  "every emitted state and transition is replayed on real point_mass/measure/product_measure/scenario objects",
+        text="All 39 shapes with <=3 factors of 1-3 points (unequal sizes included), weights 0..2, positions -1..10, one or two "
+             "edits after a load.  Every state is rebuilt from raw point masses: structure, flatten() (measure and scenario), "
+             "weights, positions, mass, npts equal the TLC values exactly; total weight = product of factor masses; round "
+             "trips load/unflatten/scenario.load/identity update/impose_measure, compose o decompose, _pack o _unpack, "
+             "_nested_split/_nested/_flat; expect, pof, pof_value (six position and two value functions), support, "
+             "support_index, mean_value, factor center_mass/range/mass exactly against TLC's explicit sums, expect_var/var at "
+             "1e-9; transitions: update footprint, load/append, weight and position assignment, center_mass/range/var "
+             "setters (achieved value within 1e-9, everything else untouched).",
+        note="trusted: TLC and its Json module; a measure is 'equal' when pts, wts, pos, flatten(), weights, positions are "
+             "equal; with total weight 0 the statistics are undefined and skipped; setter premise: factor mass != 0 and an "
+             "achievable target; update only within its documented premise len(vector) >= 2*sum(pts)",
+        design_ref="DESIGN.md section 4/C19"),
+    "C20": dict(
+        level="model_checking",
+        technique="TLA+ specs mon/Monitor.tla (monitor objects on a heap, one action per public call) and mon/LogFile.tla (log and "
+                  "parameter-file layouts) model-checked by TLC; every operation script / trajectory TLC emits is replayed into "
+                  "the real mystic.monitors and mystic.munge code with comparison after every operation",
+        text="Design invariants: len = calls, k transparent, every reported record is a recorded call, the argument of "
+             "+/extend/prepend/__setitem__ is unchanged, concatenation and slice order, write-then-read identity for the log "
+             "and the raw/support/converge layouts.  Every script over {Call, Slice, +, extend, prepend, __setitem__} on two "
+             "monitors with k in {None,1,2,-1}^2 (quick: 3 warm-up calls + 2 free operations; thorough 4+3, 5+2, 0+3) and "
+             "every [a:b:c] slice on lengths 0..3/4 is replayed on Monitor, VerboseMonitor, LoggingMonitor and "
+             "VerboseLoggingMonitor, comparing len/x/y/id of every object after every operation.  File trajectories (<=3/4 "
+             "records, dim 1-3, intervals 1-3, scalar and vector costs, ids, a 16-value catalogue incl. +-inf, nan, -0.0, "
+             "5e-324, 1.7e308, numpy scalars and arrays) are written by a real LoggingMonitor and write_{raw,support,"
+             "converge}_file and read back by logfile_reader, read_history, read_raw_file, read_import with NaN-aware exact "
+             "equality.",
+        note="trusted: TLC, the transcription of Python slicing/_get_y/_process_ids into TLA+, the harness's injective map from "
+             "ids to concrete values; the cost catalogue avoids |y| > max/2 (k*y overflow) and integer-0 costs; m.extend(m)/"
+             "m.prepend(m) excluded (never terminate: observation), ids in parameter files are int or None as documented",
+        design_ref="DESIGN.md section 4/C20"),
     "C01": dict(
         level="model_checking",
         technique="TLA+ spec solver/Objective.tla (decorated objective + abstract DE and Nelder-Mead over a finite point set, all "
